@@ -26,7 +26,7 @@ func init() {
 	})
 }
 
-var c12Forms = append(append([]string{}, allCmds...), "variants-gff-samestart", "topranking-csv", "cli-o-rerun")
+var c12Forms = append(append([]string{}, allCmds...), "variants-gff-samestart", "topranking-csv", "cli-o-rerun", "topa-dir-rerun")
 
 var rerunForms = []string{"toma", "variants", "samvariants", "snps", "snps-agg", "closest", "closestn", "updownlist", "topranking"}
 
@@ -64,6 +64,15 @@ func genC12(r *Rand, tier string, ord int) *Trial {
 		}
 		cc.Opts.Args = append(cc.Opts.Args, "-o", "result.out")
 		t := &Trial{Kind: form, Case: *cc}
+		b := P0()
+		b.Explicit = true
+		t.Runs = append([]RunCfg{b}, genRunCfgs(r, 2)...)
+		return t
+	}
+	if form == "topa-dir-rerun" {
+		// history again: toPairAlign writes one file per query into a directory that already holds longer files of those names
+		c := genCmdCase(r, "topa-dir", caseSize{})
+		t := &Trial{Kind: form, Case: *c}
 		b := P0()
 		b.Explicit = true
 		t.Runs = append([]RunCfg{b}, genRunCfgs(r, 2)...)
@@ -164,12 +173,49 @@ func checkC12(t *Trial, ctx *Ctx) *Failure {
 		ctx.Nontrivial()
 		return nil
 	}
+	if t.Kind == "topa-dir-rerun" {
+		fresh := ctx.Run(t, 0, &t.Case)
+		if fresh.Out.Kind != simrt.Returned || fresh.Err != nil || len(fresh.Files) == 0 {
+			ctx.Discard("toPairAlign into a fresh directory did not succeed or wrote no file: " + firstLine(fresh.Describe()))
+			return nil
+		}
+		for i := 1; i < len(t.Runs); i++ {
+			c2 := t.Case
+			c2.Files = map[string]string{}
+			for k, v := range t.Case.Files {
+				c2.Files[k] = v
+			}
+			for name, b := range fresh.Files {
+				c2.Files[name] = ">left_behind\n" + strings.Repeat("ACGTNNNNACGT\n", 3+len(b)/10)
+			}
+			res := ctx.Run(t, i, &c2)
+			if res.Out.Kind != simrt.Returned || res.Err != nil {
+				t.Runs = []RunCfg{t.Runs[0], t.Runs[i]}
+				return &Failure{Class: "C12/rerun-into-existing-file-fails{topa-dir}", Detail: res.Describe()}
+			}
+			if res.outputKey() != fresh.outputKey() {
+				t.Runs = []RunCfg{t.Runs[0], t.Runs[i]}
+				return &Failure{Class: "C12/output-file-depends-on-its-previous-content{topa-dir}", Detail: "the same input written into a directory that already holds (longer) files of the same names leaves different bytes than written into a fresh directory.\n" + firstDiff(fresh.outputKey(), res.outputKey())}
+			}
+		}
+		ctx.Nontrivial()
+		return nil
+	}
 	base := ctx.Run(t, 0, &t.Case)
 	if base.Out.Kind != simrt.Returned {
 		return &Failure{Class: fmt.Sprintf("C12/baseline-%s{%s}", base.Out.Kind, t.Kind), Detail: "the baseline run of a valid input did not return: " + base.Describe()}
 	}
 	if base.Err != nil {
-		ctx.Discard("baseline returned an error (input outside the command's domain): " + firstLine(base.ErrString()))
+		// the input is outside the command's domain: then it is refused under every schedule (no bytes are compared:
+		// how much was written before the refusal may depend on the schedule)
+		ctx.Probe("baseline_refused_input", 1)
+		for i := 1; i < len(t.Runs); i++ {
+			res := ctx.Run(t, i, &t.Case)
+			if res.Out.Kind == simrt.Returned && res.Err == nil {
+				t.Runs = []RunCfg{t.Runs[0], t.Runs[i]}
+				return &Failure{Class: fmt.Sprintf("C12/error-depends-on-schedule{%s}", t.Kind), Detail: fmt.Sprintf("the baseline run refused the input (%s), run %d of the same input succeeded", firstLine(base.ErrString()), i)}
+			}
+		}
 		return nil
 	}
 	bk := base.outputKey()
